@@ -393,6 +393,7 @@ package walstore
 //@   ensures success_state: result1 == nil ==> w.writer != nil && result0.walNum == w.currentWALNum && !w.repairRequired && w.currentWALSyncedOffset == lastWriteOffset
 //@   ensures failure: result1 != nil ==> calls_abortUncommitted == old(calls_abortUncommitted) + ite(calls_WriteRecord == old(calls_WriteRecord), 0, 1)
 //@   ensures atmostone: calls_WriteRecord <= old(calls_WriteRecord) + 1
+//@   ensures truncated_to_synced: result1 != nil && calls_WriteRecord != old(calls_WriteRecord) ==> calls_repairWALTail == old(calls_repairWALTail) + 1 && arg_repairWALTail_syncedOffset == ite(old(w.writer) != nil, old(w.currentWALSyncedOffset), 0)
 //@   ensures blocked: old(w.repairRequired) ==> result1 != nil && calls_WriteRecord == old(calls_WriteRecord)
 
 //@ func (*walWriter).minLiveWALNum
@@ -418,15 +419,32 @@ package walstore
 //@   trusted
 //@   logged
 //@   sets watermarkWritten = (result == nil)
-//@ func (*tendermintWALStore).cleanupObsoleteWALs
+// Which log files may be deleted: only files numbered below every file some live height still
+// references, below the current file and below the next file number.
+//@ func (*walWriter).obsolete
 //@   trusted
 //@   logged
+//@ extern func github.com/cockroachdb/pebble/v2/vfs.FS.Remove
+//@   logged as Remove
+//@ func (*tendermintWALStore).cleanupObsoleteWALs
+//@   props C14
+//@   arith int
+//@   logged
+//@   requires s != nil && s.wal != nil
+//@   assigns calls_obsolete, arg_obsolete_minLiveWALNum, calls_Remove, arg_Remove_name
+//@   loop cleanupObsoleteWALs$1/1: invariant refs: forall k uint64 :: visited(k) && in(walRefs, k) ==> *minLiveWALNum <= k
+//@   loop cleanupObsoleteWALs$1/1: invariant down: *minLiveWALNum <= old(*minLiveWALNum)
+//@   loop cleanupObsoleteWALs$1/1: invariant same: forall k uint64 :: in(walRefs, k) <==> old(in(walRefs, k))
+//@   loop 1: invariant called: calls_obsolete == old(calls_obsolete) + 1
+//@   ensures once: calls_obsolete == old(calls_obsolete) + 1
+//@   ensures below_refs: forall k uint64 :: old(in(s.walHeightRefs, k)) ==> arg_obsolete_minLiveWALNum <= k
+//@   ensures below_writer: arg_obsolete_minLiveWALNum <= old(s.wal.nextWALNum) && (old(s.wal.writer) != nil ==> arg_obsolete_minLiveWALNum <= old(s.wal.currentWALNum))
 //@ func (*tendermintWALStore).removeObsoleteWALFiles
 //@   props C14
 //@   arith int
 //@   requires s != nil && s.wal != nil
 //@   modifies s.pruneRecordsSinceCleanup, s.wal.writer, s.wal.currentWALNum, s.wal.currentWALSyncedOffset, s.wal.repairRequired
-//@   assigns calls_writePruneWatermark, arg_writePruneWatermark_walDir, arg_writePruneWatermark_height, watermarkWritten, calls_rotateAfterSynced, calls_cleanupObsoleteWALs, calls_WriterClose, calls_repairWALTail, arg_repairWALTail_walPath, arg_repairWALTail_syncedOffset
+//@   assigns calls_writePruneWatermark, arg_writePruneWatermark_walDir, arg_writePruneWatermark_height, watermarkWritten, calls_rotateAfterSynced, calls_cleanupObsoleteWALs, calls_WriterClose, calls_repairWALTail, arg_repairWALTail_walPath, arg_repairWALTail_syncedOffset, calls_obsolete, arg_obsolete_minLiveWALNum, calls_Remove, arg_Remove_name
 //@   ensures watermark_first: calls_cleanupObsoleteWALs != old(calls_cleanupObsoleteWALs) ==> calls_writePruneWatermark == old(calls_writePruneWatermark) + 1 && watermarkWritten && arg_writePruneWatermark_height == s.prunedUpToHeight && arg_writePruneWatermark_walDir == s.wal.dir
 //@   ensures rotate_first: calls_cleanupObsoleteWALs != old(calls_cleanupObsoleteWALs) ==> calls_rotateAfterSynced == old(calls_rotateAfterSynced) + 1 && calls_cleanupObsoleteWALs == old(calls_cleanupObsoleteWALs) + 1
 //@   ensures failed_watermark: calls_writePruneWatermark != old(calls_writePruneWatermark) && !watermarkWritten ==> result != nil && calls_cleanupObsoleteWALs == old(calls_cleanupObsoleteWALs) && calls_rotateAfterSynced == old(calls_rotateAfterSynced)
@@ -465,7 +483,7 @@ package walstore
 //@   requires nowrap: s.wal.nextWALNum < 18446744073709551615
 //@   requires store: indexMaps(s) && liveAbove(s) && pendingKinds(s)
 //@   modifies *
-//@   assigns calls_updateIndexesFromCommittedRecords, arg_updateIndexesFromCommittedRecords_walNum, arg_updateIndexesFromCommittedRecords_records, calls_Create, arg_Create_wn, arg_Create_jobID, calls_WriteRecord, arg_WriteRecord_p, arg_WriteRecord_opts, arg_WriteRecord_ref, calls_abortUncommitted, calls_WriterClose, calls_repairWALTail, arg_repairWALTail_walPath, arg_repairWALTail_syncedOffset, lastWriteOffset, calls_writePruneWatermark, arg_writePruneWatermark_walDir, arg_writePruneWatermark_height, watermarkWritten, calls_rotateAfterSynced, calls_cleanupObsoleteWALs
+//@   assigns calls_updateIndexesFromCommittedRecords, arg_updateIndexesFromCommittedRecords_walNum, arg_updateIndexesFromCommittedRecords_records, calls_Create, arg_Create_wn, arg_Create_jobID, calls_WriteRecord, arg_WriteRecord_p, arg_WriteRecord_opts, arg_WriteRecord_ref, calls_abortUncommitted, calls_WriterClose, calls_repairWALTail, arg_repairWALTail_walPath, arg_repairWALTail_syncedOffset, lastWriteOffset, calls_writePruneWatermark, arg_writePruneWatermark_walDir, arg_writePruneWatermark_height, watermarkWritten, calls_rotateAfterSynced, calls_cleanupObsoleteWALs, calls_obsolete, arg_obsolete_minLiveWALNum, calls_Remove, arg_Remove_name
 //@   ensures closed: old(s.closed) ==> result != nil && calls_WriteRecord == old(calls_WriteRecord) && calls_updateIndexesFromCommittedRecords == old(calls_updateIndexesFromCommittedRecords)
 //@   ensures empty: !old(s.closed) && old(len(s.pendingRecords)) == 0 ==> result == nil && calls_WriteRecord == old(calls_WriteRecord) && calls_updateIndexesFromCommittedRecords == old(calls_updateIndexesFromCommittedRecords)
 //@   ensures index_after_sync: calls_updateIndexesFromCommittedRecords != old(calls_updateIndexesFromCommittedRecords) ==> calls_updateIndexesFromCommittedRecords == old(calls_updateIndexesFromCommittedRecords) + 1 && calls_WriteRecord == old(calls_WriteRecord) + 1 && calls_abortUncommitted == old(calls_abortUncommitted)
